@@ -1693,6 +1693,11 @@ pub fn check(prop: &str, line: &str) -> R {
     if out == "bad-op" {
         return Err("harness could not run this line (bad-op)".to_string());
     }
+    if out == "ok forms-disagree" {
+        // the runner evaluates every syntactic form of an operator (owned / borrowed operands,
+        // named method, assigning form) and reports when they are not all equal
+        return Err("the syntactic forms of this operator (owned / borrowed operands) do not all return the same value".to_string());
+    }
     match prop {
         "C01" => c01(&t, &out),
         "C02" => c02(&t, &out),
